@@ -13,8 +13,9 @@ var verifRun int64
 // verifWrap interposes, after each processor, an observer that runs while the
 // stage still owns the Day (after the change, before the Day is pushed on) and
 // emits one StageDay event.
-func verifWrap(fs []func(*Day) error) []func(*Day) error {
+func verifWrap(fs []func(*Day) error, days int) []func(*Day) error {
 	run := atomic.AddInt64(&verifRun, 1)
+	verif.Emit("ProcessStart", "run", run, "of", len(fs), "days", days)
 	res := make([]func(*Day) error, len(fs))
 	for i, f := range fs {
 		i, f := i, f
@@ -41,4 +42,13 @@ func verifWrap(fs []func(*Day) error) []func(*Day) error {
 		}
 	}
 	return res
+}
+
+// verifEnd emits one ProcessEnd event with the result of the pipeline of the latest Process call.
+func verifEnd(err error) {
+	e := ""
+	if err != nil {
+		e = err.Error()
+	}
+	verif.Emit("ProcessEnd", "run", atomic.LoadInt64(&verifRun), "failed", err != nil, "err", e)
 }
